@@ -186,6 +186,8 @@ func runC01(env *core.Env) {
 	add("claimer+new-task/S_one", f.SOne, claimReq("a1"), core.R("", "--json", "new", "task").In(`{"title":"fresh"}`))
 	add("2-claimers+prune/S_A", f.SA, claimReq("a1"), claimReq("a2"), core.R("", "--json", "prune", "--yes"))
 	add("2-claimers+compact/S_A", f.SA, claimReq("a1"), claimReq("a2"), core.R("", "--json", "compact"))
+	add("claimer+compact/S_A-legacy-file", legacyNamed(f.SA), claimReq("a1"), core.R("", "--json", "compact"))
+	add("2-claimers+compact/S_A-legacy-file", legacyNamed(f.SA), claimReq("a1"), claimReq("a2"), core.R("", "--json", "compact"))
 	if env.Thorough() {
 		add("4-claimers/S_A", f.SA, claimReq("a1"), claimReq("a2"), claimReq("a3"), claimReq("a4"))
 		add("3-claimers/S_one", f.SOne, claimReq("a1"), claimReq("a2"), claimReq("a3"))
@@ -238,4 +240,14 @@ func finishSched(env *core.Env, st *schedStats, rule string) {
 		"a single write(2)/rename(2) is indivisible to other processes",
 		"bound_completed is the smallest preemption bound completed over all scenarios",
 	})
+}
+
+// legacyNamed returns the store with its log under the legacy file name events.jsonl.
+func legacyNamed(st core.Store) core.Store {
+	c := st.Clone()
+	if b, ok := c[".ergo/plans.jsonl"]; ok {
+		c[".ergo/events.jsonl"] = b
+		delete(c, ".ergo/plans.jsonl")
+	}
+	return c
 }
